@@ -145,6 +145,25 @@ def check_task(bag, rng, spec_vars, n_pos):
                         break
     except Exception as e:
         bad("bounds", f"get_bounds() raised {type(e).__name__}: {e}")
+    # ---- the arrays handed out belong to the caller (AntLion divides them in place): whatever the caller does with them, the
+    # next call still describes the variables
+    bag["n"] += 1
+    try:
+        l1, u1 = task.get_bounds()
+        snap = json.dumps(canon([np.asarray(l1).tolist(), np.asarray(u1).tolist()]))
+        for arr in (l1, u1):
+            if isinstance(arr, np.ndarray):
+                try:
+                    arr /= 7.0
+                except TypeError:       # integer-typed bounds: in-place true division is refused, overwrite instead
+                    arr[...] = 0
+            elif isinstance(arr, list):
+                arr[:] = [0] * len(arr)
+        l2, u2 = task.get_bounds()
+        if json.dumps(canon([np.asarray(l2).tolist(), np.asarray(u2).tolist()])) != snap:
+            bad("bounds", f"after the caller modified the arrays returned by an earlier get_bounds() call, get_bounds() = {l2!r}, {u2!r}")
+    except Exception as e:
+        bad("bounds", f"get_bounds() / in-place use of its result raised {type(e).__name__}: {e}")
     # ---- consequences of a consistent description: derived helpers agree with the dimension and the bounds
     if not is_perm_only:
         bag["n"] += 1
